@@ -1,7 +1,10 @@
 """C03 — every item of a generated dataset is a correctly solved maze.
 Serial generation runs under the RNG tap and the `min` shadow: per item the Lean model regenerates the maze from the
 tapped draws, checks that the observed endpoints are a choice the code can make, replays A* and must return the stored
-solution. Parallel generation (pool sizes 1,2,3,5 / up to 16) cannot be tapped: every item is judged by the oracle and
+solution. In addition the WHOLE tapped run (the complete draw / rand streams, uncut, plus per item the observed endpoints
+and picks) is replayed by the serial dataset model `generateSerial` (op `C03.dataset`): ONE shared stream, every item
+starting where the previous one stopped; the model must return the real items, in order, and consume the tapped streams
+exactly. Parallel generation (pool sizes 1,2,3,5 / up to 16) cannot be tapped: every item is judged by the oracle and
 its length is certified against the verified model's optimal path."""
 import warnings, itertools
 import numpy as np
@@ -12,11 +15,11 @@ RULE = ("configurations = generator (dfs, prim, wilson, percolation p>=.5, dfs_p
         "configs with a fixed start_coord, a third of those NOT a cell of the grid: generation must raise ValueError and the model must be in "
         "its start-rejected branch; a produced dataset is a violation) x grid 2..7 x endpoint options "
         "({}, dead-end start/end, allowed start/end lists, endpoints_not_equal and combinations) x seeds; serial (tapped, exact) and "
-        "parallel with several pool sizes; non-trivial = item whose solution has >= 2 cells; distinct = distinct (config, index, solution)")
+        "parallel with several pool sizes; every serial run additionally replayed WHOLE on one shared stream (C03.dataset: items equal in order, streams consumed exactly); non-trivial = item whose solution has >= 2 cells; distinct = distinct (config, index, solution)")
 ASSUMPTIONS = ["multiprocessing transport (pickling, imap ordering) is exercised, not modelled: the per-item theorem holds for every draw stream, the schedule only selects the stream",
                "configurations whose generation raises the documented ValueError (component of one cell, empty allowed set; a start_coord that is not a cell of the grid - accepted ONLY for such a start_coord, counted separately) are outside the property's quantifier and only counted",
                "visited_cells of percolation generators: component exactness is C13_component (validated here per run)"]
-TRUSTED = ["RNG taps, `min` shadow, wrappers around _generate_maze_helper / generate_random_path used to cut the draw stream per item"]
+TRUSTED = ["RNG taps, `min` shadow, wrappers around _generate_maze_helper / generate_random_path used to cut the draw stream per item (the whole-run replay C03.dataset does not use the cuts: it gets the uncut streams)"]
 
 EP_OPTS = [dict(), dict(allowed_start=[]), dict(allowed_end=[], endpoints_not_equal=True), dict(deadend_start=True), dict(deadend_end=True), dict(deadend_start=True, deadend_end=True, endpoints_not_equal=True),
            dict(endpoints_not_equal=True), "allowed_start", "allowed_end", "allowed_both", "allowed_start_deadend_end"]
@@ -87,8 +90,10 @@ def opts_json(ep):
     return o
 
 
-def serial(ctx, cfg, case, ep, reqs):
-    """tapped serial generation; returns list of (item index, maze) or None when the documented ValueError occurred"""
+def serial(ctx, cfg, case, ep, reqs, ds_reqs=None):
+    """tapped serial generation; returns list of (item index, maze) or None when the documented ValueError occurred.
+    `reqs` gets one `C03.item` request per item (the draw stream cut per item), `ds_reqs` ONE `C03.dataset` request for the
+    whole run: the complete tapped streams, replayed by `generateSerial` (one shared stream, item after item)"""
     import maze_dataset.dataset.maze_dataset as MD
     import maze_dataset.maze.lattice_maze as LM
     marks = []           # per item: [draw pos at helper entry, rand pos, draw pos at path entry, rand pos at path entry, picks]
@@ -121,6 +126,9 @@ def serial(ctx, cfg, case, ep, reqs):
                 ctx.count("documented_ValueError_start_outside_grid")
                 reqs.append((dict(gens.request(case, dict(draws=[], rands=[])), op="C03.item", opts=opts_json(ep), s=[0, 0], e=[0, 0], picks=[]),
                              dict(case=case, ep=opts_json(ep), seed=cfg.seed, index=0, rejected=so), None, None))
+                if ds_reqs is not None:
+                    ds_reqs.append((dict(gens.request(case, dict(draws=[], rands=[])), op="C03.dataset", opts=opts_json(ep), n=int(cfg.n_mazes), obs=[], rands=[]),
+                                    dict(case=case, ep=opts_json(ep), seed=cfg.seed, n=int(cfg.n_mazes), rejected=so), None))
             elif "outside the grid" in msg:
                 ctx.violate(f"{case}: generation raised ValueError({msg[:120]!r}) although start_coord is a cell of the grid", dict(case=case, ep=opts_json(ep), seed=cfg.seed))
             else:
@@ -145,13 +153,21 @@ def serial(ctx, cfg, case, ep, reqs):
         sol = [[int(a), int(b)] for a, b in m.solution]
         rq.update(op="C03.item", opts=opts_json(ep), s=sol[0], e=sol[-1], picks=picks)
         reqs.append((rq, dict(case=case, ep=opts_json(ep), seed=cfg.seed, index=i), gens.edges_of(m.connection_list), sol))
+    if ds_reqs is not None:
+        # the WHOLE run on ONE stream: nothing is cut; the model itself must find where each item's draws end
+        sols = [[[int(a), int(b)] for a, b in m.solution] for m in ds.mazes]
+        rq = gens.request(case, dict(draws=draws, rands=rands))
+        rq.update(op="C03.dataset", opts=opts_json(ep), n=int(cfg.n_mazes), rands=rands,
+                  obs=[dict(s=sol[0], e=sol[-1], picks=marks[i][4]) for i, sol in enumerate(sols)])
+        ds_reqs.append((rq, dict(case=case, ep=opts_json(ep), seed=cfg.seed, n=int(cfg.n_mazes)),
+                        [(gens.edges_of(m.connection_list), sol) for m, sol in zip(ds.mazes, sols)]))
     return ds
 
 
 def run(ctx):
     warnings.filterwarnings("ignore")
     from maze_dataset import MazeDataset
-    reqs = []
+    reqs, ds_reqs = [], []
     n_cfg = 60 if ctx.quick else 600
     par_sizes = [1, 2, 3, 5] if ctx.quick else [1, 2, 3, 4, 5, 7, 8, 11, 16]
     par_jobs = []
@@ -165,7 +181,7 @@ def run(ctx):
         cfg, case, ep = make_cfg(ctx.rng if ws is None else side, k, ws)
         ctx.count(f"gen={case['gen']}"); ctx.count("ep=" + ",".join(sorted(opts_json(ep))) if ep else "ep=default")
         if "start_coord" in case["kwargs"]: ctx.count("start_coord=" + (gens.start_outside(case) or "grid_cell"))
-        ds = serial(ctx, cfg, case, ep, reqs)
+        ds = serial(ctx, cfg, case, ep, reqs, ds_reqs)
         if ds is None: continue
         for i, m in enumerate(ds.mazes):
             bad = oracle_item(cfg.grid_n, m, ep)
@@ -227,6 +243,26 @@ def run(ctx):
             certs.append((dict(op="C03.solve", rows=cfg.grid_n, cols=cfg.grid_n, edges=gens.edges_of(m.connection_list), component=comp,
                                opts=opts_json(ep), s=list(sol[0]), e=list(sol[-1]), picks=obs[2]), len(sol), dict(case=case, seed=cfg.seed, index=i, pool=ps)))
     outs = ctx.driver.run_parallel([r for r, *_ in reqs] + [r for r, *_ in certs])
+    # ---- whole serial runs replayed on ONE shared stream by `generateSerial` (C03_dataset_*) ------------------
+    for (rq, info, want_items), o in zip(ds_reqs, ctx.driver.run_parallel([r for r, *_ in ds_reqs])):
+        ctx.traces_validated += 1
+        if info.get("rejected"):
+            want = gens.REJECT_REASON[info["rejected"]]
+            if o.get("ok") or o.get("reason") != want or o.get("failed_at") != 0:
+                ctx.disagree(f"dataset {info}: real generation raised ValueError for the start_coord; serial model reply {str(o)[:200]}, expected ok=false failed_at=0 reason={want}", info)
+            continue
+        if "error" in o or not o.get("ok"):
+            ctx.disagree(f"dataset {info}: the serial model does not complete the run on the tapped streams: {str(o)[:300]}", info); continue
+        items = o["items"]
+        if len(items) != info["n"] or len(items) != len(want_items):
+            ctx.disagree(f"dataset {info}: serial model returned {len(items)} items, the real run {len(want_items)} (n_mazes={info['n']})", info); continue
+        for i, (it, (edges, sol)) in enumerate(zip(items, want_items)):
+            if sorted(it["edges"]) != edges or it["solution"] != sol or not it.get("wf"):
+                ctx.disagree(f"dataset {info}: item {i} of the serial model (solution {it['solution']}, wf={it.get('wf')}) differs from the real item (solution {sol})"
+                             + ("" if sorted(it["edges"]) == edges else "; connection bits differ"), dict(info, index=i)); break
+        if o.get("leftover_draws") or o.get("leftover_rands") or o.get("leftover_obs"):
+            ctx.disagree(f"dataset {info}: the {info['n']} items of the serial model do not consume the tapped streams exactly: left draws={o.get('leftover_draws')} rands={o.get('leftover_rands')} obs={o.get('leftover_obs')}", info)
+        ctx.count("dataset_replayed_whole"); ctx.count(f"dataset_replayed_whole_n={min(info['n'], 8)}")
     for (rq, info, edges, sol), o in zip(reqs, outs):
         ctx.traces_validated += 1
         if info.get("rejected"):
